@@ -215,8 +215,9 @@ def _generate(rng, tier):
         mem = big + [n, n - 1, n + 1, -n, -n - 1, -n + 1, rng.randint(-3 * n - 3, 3 * n + 3)]
         yield {"fam": "slen", "n": n, "s": [rng.choice(mem), rng.choice(mem), rng.choice([None, 1, -1, 2, -2, 3, -3, 5, -7, 10 ** 20, -10 ** 20, rng.randint(-n - 2, n + 2)])]}
     # ---- random longer vectors
-    for _ in range(5000 if not thorough else 40000):
-        n = rng.randint(6, 40)
+    for it_ in range(5000 if not thorough else 40000):
+        # every 25th vector is long (beyond any size at which an implementation might switch strategy)
+        n = rng.randint(6, 40) if it_ % 25 else rng.choice([64, 65, 128, 130, 256, 257, 300, 1030])
         mem = big + [n, n - 1, n + 1, -n, -n - 1, rng.randint(-n - 3, n + 3), rng.randint(-n - 3, n + 3)]
         kind = rng.randint(0, 3)
         v = {"vals": [rng.choice(IX[rng.choice(["int", "intn", "str", "obj"])]) for _ in range(n)], "name": rng.choice([None, "x", "Long Name"])}
@@ -254,8 +255,8 @@ def _generate(rng, tier):
         for xs in itertools.product([1, 2, 0], repeat=n):
             yield {"fam": "cmp", "op": "not", "xs": list(xs), "other": {"t": "scalar", "ys": [1]}, "xdtype": "bool" if n == 0 else None}
     kinds = [[0], [1, 2], [3, 4, 5, 7], [14, 15, 16], [19, 20, 23], [26, 27], [4, 19, 0, 15]]
-    for _ in range(15000 if not thorough else 120000):
-        n = rng.randint(0, 5)
+    for it_ in range(15000 if not thorough else 120000):
+        n = rng.randint(0, 5) if it_ % 60 else rng.choice([33, 64, 129, 257, 300])
         ka, kb = rng.choice(kinds), rng.choice(kinds)
         if rng.random() < 0.6:
             kb = ka
@@ -336,7 +337,7 @@ def _generate(rng, tier):
                                "key": {"t": "tuple", "items": [{"t": "slice", "s": [None, None, None]}, {"t": "names", "ks": [k1]}]}}
     for _ in range(3000 if not thorough else 30000):
         layout = [rng.choice(["a", "b", "A b", "a b", "B", None, "sum", "x__1", "9", "_"]) for _ in range(rng.randint(1, 6))]
-        nrows = rng.randint(0, 6)
+        nrows = rng.randint(0, 6) if rng.random() > 0.03 else rng.choice([70, 129, 260])
         cols = [{"name": nm, "vals": [rng.choice(IX[rng.choice(["int", "intn", "str"])]) for _ in range(nrows)]} for nm in layout]
         keys = _keys_for(layout)
         mem = [None, 0, 1, -1, 2, nrows, -nrows, nrows + 1, 10 ** 20]
